@@ -136,9 +136,12 @@ func genPair(t *rapid.T, cfg protogen.GenConfig) *Case {
 	next := ws.Clone()
 	var how []string
 	n := rapid.IntRange(1, 4).Draw(t, "edits")
+	if rapid.Bool().Draw(t, "single") {
+		n = 1 // a single edit: its own category profile is not masked by other edits
+	}
 	for i := 0; i < n; i++ {
 		var e *protogen.Edit
-		if rapid.IntRange(0, 3).Draw(t, "additive") == 0 {
+		if n > 1 && rapid.IntRange(0, 3).Draw(t, "additive") == 0 {
 			e = ed.ApplyAdditive(next)
 		} else {
 			e = ed.ApplyBreaking(next)
